@@ -436,6 +436,43 @@ func (e *Engine) addNatives() {
 	for k, f := range nat {
 		in[k] = nativeFn(f)
 	}
+	joinNative := in["path/filepath.Join"]
+	in["path/filepath.Join"] = func(c *callCtx) Value {
+		sl := c.args[0].(Slice)
+		var elems []Value
+		sym := false
+		if sl.Len > 0 {
+			elems = c.s.obj(sl.ID).slots[sl.Off : sl.Off+sl.Len]
+		}
+		for _, e := range elems {
+			if _, ok := e.(*SymStr); ok {
+				sym = true
+			}
+		}
+		if !sym {
+			return joinNative(c)
+		}
+		// symbolic elements are opaque plain names: assumed to contain no separator
+		var out Value = ""
+		for i, e := range elems {
+			if ss, ok := e.(*SymStr); ok {
+				for _, b := range ss.B {
+					if t, ok := b.(*Term); ok {
+						if !c.s.assume(c.w, mkNot(mkEq(t, mkBV('/', 8)))) {
+							c.s.finish("INFEASIBLE", "")
+						}
+					}
+				}
+			} else {
+				e = filepath.Clean(e.(string))
+			}
+			if i > 0 {
+				out = strConcat(out, "/")
+			}
+			out = strConcat(out, e)
+		}
+		return out
+	}
 	in["strconv.FormatFloat"] = func(c *callCtx) Value {
 		f := c.floatArg(0)
 		return strconv.FormatFloat(f, byte(c.int(1)), c.int(2), c.int(3))
